@@ -356,6 +356,203 @@ theorem weight_val [Field K] [DecidableEq K] (f g : Fld K) (p : Int) (sp : Space
         simp only [ipow_one_base, mul_one] at this
         simpa using this
 
+theorem totalVolumeLoop_scalar [Field K] (subs : List (SubDom K)) (idx : Idx)
+    (hstd : ∀ i, (subs.getD i default).tv = none) :
+    ∀ (l : List Nat) (res V : K), (∀ i ∈ l, i < subs.length) → allScalar subs l →
+      totalVolumeLoop subs (l.map Int.ofNat) res = .ok V →
+      V = res * ((countOf (subs.map SubDom.size) l : Nat) : K) * prodOver l (fun ind => dvolAt subs ind idx) := by
+  intro l
+  induction l with
+  | nil =>
+    intro res V _ _ h
+    simp only [List.map_nil, totalVolumeLoop, Except.ok.injEq] at h
+    subst h
+    simp [countOf, prodNat, prodOver]
+  | cons i t ih =>
+    intro res V hlt hs h
+    have hi : i < subs.length := hlt i (by simp)
+    obtain ⟨v, hv⟩ := hs i (by simp)
+    simp only [List.map_cons, totalVolumeLoop, pyGet_ofNat subs i hi, SubDom.totalVolume, hstd i, hv] at h
+    rw [ih _ _ (fun j hj => hlt j (by simp [hj])) (fun j hj => hs j (by simp [hj])) h]
+    have hsz : (subs.map SubDom.size).getD i 1 = (subs.getD i default).size := by
+      simp [List.getD_eq_getElem?_getD, List.getElem?_eq_getElem hi]
+    simp only [countOf, List.map_cons, prodNat, prodOver, dvolAt, hv, hsz, Nat.cast_mul]
+    ring
+
+theorem totalVolume_eq_loop [Field K] (subs : List (SubDom K)) (sp : Spaces) :
+    totalVolume subs sp = totalVolumeLoop subs (spInts sp subs.length) 1 := by
+  cases sp with
+  | none => rfl
+  | list l => rfl
+  | scalar i =>
+    simp only [totalVolume, spInts, totalVolumeLoop]
+    cases pyGet subs i with
+    | error e => rfl
+    | ok s =>
+      simp only
+      cases hs : s.totalVolume with
+      | error e => rfl
+      | ok v => simp [one_mul]
+
+/-- total_volume over sub-domains with scalar volume elements (StructuredDomain formula): count × scalar weight -/
+theorem totalVolume_scalar [Field K] (subs : List (SubDom K)) (sp : Spaces) (l : List Nat) (V : K) (idx : Idx)
+    (hstd : ∀ i, (subs.getD i default).tv = none)
+    (hp : parseSpaces sp subs.length = .ok l) (hs : allScalar subs l) (h : totalVolume subs sp = .ok V) :
+    V = ((countOf (subs.map SubDom.size) l : Nat) : K) * prodOver l (fun ind => dvolAt subs ind idx) := by
+  obtain ⟨hlt, hints⟩ := parseSpaces_ok hp
+  rw [totalVolume_eq_loop, hints] at h
+  rw [totalVolumeLoop_scalar subs idx hstd l 1 V hlt hs h, one_mul]
+
 end Volumes
+
+/-! ### index fibres: summing the partial contractions over the kept indices gives the total (Fubini) -/
+section Fubini
+variable {K : Type}
+
+theorem contract_total [AddCommMonoid K] :
+    ∀ (mask : List Bool) (sizes : List Nat) (x : Idx → K), mask.length = sizes.length →
+      sumOver (allIdx (sel false mask sizes)) (fun o => contract mask sizes x o) = sumOver (allIdx sizes) x := by
+  intro mask
+  induction mask with
+  | nil =>
+    intro sizes x h
+    have : sizes = [] := by cases sizes with | nil => rfl | cons a t => simp at h
+    subst this
+    simp [sel, contract, allIdx, sumOver, merge]
+  | cons b m ih =>
+    intro sizes x h
+    cases sizes with
+    | nil => simp at h
+    | cons n ns =>
+      have hlen : m.length = ns.length := by simpa using h
+      cases b with
+      | true =>
+        have e1 : sel false (true :: m) (n :: ns) = sel false m ns := by simp [sel]
+        have e2 : sel true (true :: m) (n :: ns) = n :: sel true m ns := by simp [sel]
+        have step : ∀ o, contract (true :: m) (n :: ns) x o
+            = sumOver (List.range n) (fun i => contract m ns (fun t => x (i :: t)) o) := by
+          intro o
+          simp only [contract, e2, sumOver_allIdx_cons, merge, List.headD_cons, List.tail_cons]
+        rw [e1, sumOver_allIdx_cons]
+        simp only [step]
+        rw [sumOver_comm]
+        apply sumOver_congr
+        intro i _
+        exact ih ns (fun t => x (i :: t)) hlen
+      | false =>
+        have e1 : sel false (false :: m) (n :: ns) = n :: sel false m ns := by simp [sel]
+        have e2 : sel true (false :: m) (n :: ns) = sel true m ns := by simp [sel]
+        have step : ∀ i o, contract (false :: m) (n :: ns) x (i :: o) = contract m ns (fun t => x (i :: t)) o := by
+          intro i o
+          simp only [contract, e2, merge, List.headD_cons, List.tail_cons]
+        rw [e1, sumOver_allIdx_cons, sumOver_allIdx_cons]
+        apply sumOver_congr
+        intro i _
+        simp only [step]
+        exact ih ns (fun t => x (i :: t)) hlen
+
+end Fubini
+
+/-! ### total volume of a product domain = product of the sub-domain volumes = integral of 1 -/
+section TotalVolume
+variable {K : Type}
+
+/-- SPEC: volume of one sub-domain (`total_volume` of the domain object) -/
+def subTV [Field K] (s : SubDom K) : K :=
+  match s.tv with
+  | some v => v
+  | none =>
+    match s.dvol with
+    | .none => 0
+    | .scalar v => (s.size : K) * v
+    | .vector v => sumOver (List.range s.size) fun i => v.getD i 0
+
+theorem totalVolume_sub [Field K] (s : SubDom K) (v : K) (h : s.totalVolume = .ok v) : v = subTV s := by
+  unfold SubDom.totalVolume at h
+  unfold subTV
+  cases htv : s.tv with
+  | some w => simp only [htv, Except.ok.injEq] at h ⊢; exact h.symm
+  | none =>
+    cases hd : s.dvol with
+    | none => simp only [htv, hd] at h; cases h
+    | scalar w => simp only [htv, hd, Except.ok.injEq] at h ⊢; exact h.symm
+    | vector w => simp only [htv, hd, Except.ok.injEq] at h ⊢; exact h.symm
+
+theorem totalVolumeLoop_prod [Field K] (subs : List (SubDom K)) :
+    ∀ (l : List Nat) (res V : K), (∀ i ∈ l, i < subs.length) →
+      totalVolumeLoop subs (l.map Int.ofNat) res = .ok V →
+      V = res * prodOver l (fun i => subTV (subs.getD i default)) := by
+  intro l
+  induction l with
+  | nil =>
+    intro res V _ h
+    simp only [List.map_nil, totalVolumeLoop, Except.ok.injEq] at h
+    simp [prodOver, h]
+  | cons i t ih =>
+    intro res V hlt h
+    have hi : i < subs.length := hlt i (by simp)
+    simp only [List.map_cons, totalVolumeLoop, pyGet_ofNat subs i hi] at h
+    cases hv : (subs.getD i default).totalVolume with
+    | error e => simp only [hv] at h; cases h
+    | ok v =>
+      simp only [hv] at h
+      rw [ih _ _ (fun j hj => hlt j (by simp [hj])) h, totalVolume_sub _ _ hv]
+      simp only [prodOver]
+      ring
+
+/-- weight function of one sub-domain by its own index -/
+def subW [Field K] (s : SubDom K) : Nat → K := fun j =>
+  match s.dvol with
+  | .none => 1
+  | .scalar w => w
+  | .vector v => v.getD j 0
+
+def prodZip [Field K] : List (Nat → K) → Idx → K
+  | [], _ => 1
+  | w :: ws, idx => w (idx.headD 0) * prodZip ws idx.tail
+
+theorem sum_prodZip [Field K] : ∀ (ws : List (Nat → K)) (ns : List Nat), ws.length = ns.length →
+    sumOver (allIdx ns) (prodZip ws) = prodOver (ws.zip ns) (fun wn => sumOver (List.range wn.2) wn.1) := by
+  intro ws
+  induction ws with
+  | nil =>
+    intro ns h
+    have : ns = [] := by cases ns with | nil => rfl | cons a t => simp at h
+    subst this
+    simp [allIdx, sumOver, prodZip, prodOver]
+  | cons w ws ih =>
+    intro ns h
+    cases ns with
+    | nil => simp at h
+    | cons n ns =>
+      have hlen : ws.length = ns.length := by simpa using h
+      rw [sumOver_allIdx_cons]
+      simp only [prodZip, List.headD_cons, List.tail_cons, List.zip_cons_cons, prodOver]
+      simp only [sumOver_mul_left, ih ns hlen]
+      rw [sumOver_mul_right]
+
+theorem prodOver_range_succ [CommMonoid K] (n : Nat) (g : Nat → K) :
+    prodOver (List.range (n + 1)) g = g 0 * prodOver (List.range n) (fun k => g (k + 1)) := by
+  rw [List.range_succ_eq_map]
+  simp only [prodOver, prodOver_map]
+
+theorem dvolAt_cons_zero [Field K] (s : SubDom K) (subs : List (SubDom K)) (idx : Idx) :
+    dvolAt (s :: subs) 0 idx = subW s (idx.headD 0) := by
+  cases idx <;> cases hd : s.dvol <;> simp [dvolAt, subW, hd]
+
+theorem dvolAt_cons_succ [Field K] (s : SubDom K) (subs : List (SubDom K)) (k : Nat) (idx : Idx) :
+    dvolAt (s :: subs) (k + 1) idx = dvolAt subs k idx.tail := by
+  cases idx <;> cases hd : (subs.getD k default).dvol <;> simp [dvolAt, hd]
+
+theorem prod_dvolAt_eq_prodZip [Field K] : ∀ (subs : List (SubDom K)) (idx : Idx),
+    prodOver (List.range subs.length) (fun k => dvolAt subs k idx) = prodZip (subs.map subW) idx := by
+  intro subs
+  induction subs with
+  | nil => intro idx; simp [prodOver, prodZip]
+  | cons s subs ih =>
+    intro idx
+    simp only [List.length_cons, prodOver_range_succ, dvolAt_cons_zero, dvolAt_cons_succ, List.map_cons, prodZip, ih]
+
+end TotalVolume
 
 end NiftyVerif.FieldM
